@@ -233,7 +233,8 @@ func (m *Module) verifyRegistration(definition ServiceDefinition, presentation v
 	if presentation.Format() != vc.JWTPresentationProofFormat {
 		return errors.Join(ErrInvalidPresentation, errUnsupportedPresentationFormat)
 	}
-	if presentation.ID == nil {
+	if presentation.ID == nil || presentation.ID.String() == "" {
+		// an empty ID ("jti": "") is no ID: entries are identified by their ID (existence check, retraction)
 		return errors.Join(ErrInvalidPresentation, errPresentationWithoutID)
 	}
 	// Make sure the presentation is intended for this service
